@@ -1,7 +1,7 @@
 (* C02, pressure step: the GENERATED convert_pressure on a well-labelled state, for all 10 x 10 representation pairs. *)
 From Coq Require Import Reals Lra QArith Qreals ZArith String List Bool.
 From PG Require Import Lib.Num Lib.Py Lib.Tac Gen.UnitsGen1 Units.AdsOracle Gen.UnitsGen2 Units.UnitsSpec
-  Units.PressureProofs Iso.IsoState Gen.IsoGen Iso.IsoSpec.
+  Units.PressureProofs Units.LoadingPhys Units.C01Theorems Iso.IsoState Gen.IsoGen Iso.IsoSpec.
 Import ListNotations.
 Open Scope R_scope.
 
@@ -22,16 +22,16 @@ Ltac col_step HF :=
     assert (H : @conv_col N F c = Ok (map _ c)) by (apply conv_col_ext; intro v; apply HF);
     rewrite H; clear H end.
 
-Theorem convert_pressure_step psat M rml rmg T tk rl rm m cp cl cb li pi vb (rp rp' : prep) :
-  0 < psat -> kelvin_of tk T <> 0 ->
-  convert_pressure RNum (mk_state rp rl rm tk T (ads_full psat M rml rmg) m cp cl cb li pi) (p_mode rp') (p_unit rp') vb
-  = SOk (if prep_eqb rp' rp then mk_state rp rl rm tk T (ads_full psat M rml rmg) m cp cl cb li pi
-         else mk_state rp' rl rm tk T (ads_full psat M rml rmg) m
+Theorem convert_pressure_step (a : adsorbate RNum) psat T tk rl rm m cp cl cb li pi vb (rp rp' : prep) :
+  a_psat_Pa a (Some (kelvin_of tk T)) = Some psat -> 0 < psat -> kelvin_of tk T <> 0 ->
+  convert_pressure RNum (mk_state rp rl rm tk T a m cp cl cb li pi) (p_mode rp') (p_unit rp') vb
+  = SOk (if prep_eqb rp' rp then mk_state rp rl rm tk T a m cp cl cb li pi
+         else mk_state rp' rl rm tk T a m
                 (map (spec_conv (p_canon psat rp) (p_canon psat rp')) cp) cl cb None None).
 Proof.
-  intros Hp HT.
-  pose proof (fun v => c_pressure_factor_gen psat (kelvin_of tk T) v rp rp' (Some M) (Some (rml * M)) (Some (rmg * M)) (Some rml) (Some rmg) Hp HT) as HF.
-  pose proof (iso_temperature_mk rp rl rm tk T (ads_full psat M rml rmg) m cp cl cb li pi) as HK.
+  intros Ha Hp HT.
+  pose proof (fun v => c_pressure_factor_at psat (kelvin_of tk T) v rp rp' a Ha Hp HT) as HF.
+  pose proof (iso_temperature_mk rp rl rm tk T a m cp cl cb li pi) as HK.
   unfold convert_pressure. rewrite ?HK.
   destruct rp as [[]| |], rp' as [[]| |]; cbn [p_mode p_unit punit_name] in HF; clear HK;
   ev_iso; try reflexivity; col_step HF; ev_iso; reflexivity.
